@@ -473,6 +473,19 @@ void vf_case(Ctx& ctx, uint64_t i) {
   int pkind = r.chance(0.1) ? 4 : r.irange(0, 3), akind = r.chance(0.1) ? 3 : r.irange(0, 2);
   int pn = r.irange(3, 8), an = r.irange(1, 10);
   Path64 pat = gen_pattern(r, pkind, pn, pcx, pcy, Rp), path = gen_path(r, akind, an, acx, acy, Ra);
+  // nearly parallel long edges: one path edge is a pattern edge plus a tiny perturbation, so their parallelogram is a
+  // needle (long, a few to a few thousand units thick) - not degenerate, but any "is this quad empty / is the cross
+  // product zero" shortcut taken in floating point decides it wrongly
+  if (r.chance(0.06) && pat.size() >= 3 && path.size() >= 2 && magexp >= 20) {
+    size_t pe = (size_t)r.irange(0, (int)pat.size() - 1); Point64 pa = pat[pe], pb = pat[(pe + 1) % pat.size()];
+    int64_t ex = pb.x - pa.x, ey = pb.y - pa.y;
+    if ((ex < 0 ? -ex : ex) + (ey < 0 ? -ey : ey) >= M / 64) {
+      size_t ae = (size_t)r.irange(0, (int)path.size() - 2);
+      int64_t pert = (int64_t)1 << r.irange(1, 13);
+      Point64 nb(path[ae].x + ex + r.range(-pert, pert), path[ae].y + ey + r.range(-pert, pert));
+      if (nb.x >= -M && nb.x <= M && nb.y >= -M && nb.y <= M) { path[ae + 1] = nb; ctx.count("cases_with_a_nearly_parallel_long_edge_pair"); }
+    }
+  }
   clamp_path(pat, M); clamp_path(path, M);
   // special inputs: empties (the property's last sentence) and inputs outside the quantifier (executed, counted, not judged)
   double u = r.unit();
